@@ -133,10 +133,15 @@ class IpcCommand:
             return 0
         elif isinstance(ret, tuple):
             code, response = ret
-            return f"{code}\x07{response}"
+            return f"{code}\x07{IpcCommand._single_line(response)}"
         elif isinstance(ret, (int, str)):
-            return f"0\x07{ret}"
+            return f"0\x07{IpcCommand._single_line(ret)}"
         raise TypeError(f"unsupported return status type: {type(ret)}")
+
+    @staticmethod
+    def _single_line(response):
+        """The bash side reads a reply as one line; keep multi-line output on it."""
+        return " ".join(str(response).splitlines())
 
     def parse_args(self, options, args):
         """Parse internal args passed from the bash side."""
